@@ -15,10 +15,12 @@ fn quiet() -> Duration {
 
 enum Kind {
     Down { name: String, b: usize, w: usize, twice: bool },
-    Up { name: String, b: usize, w: usize, content: Vec<u8> },
+    Up { name: String, b: usize, w: usize, content: Vec<u8>, lossy: bool },
     Intruder { what: String },
     /// sends datagrams (well-formed or not) from its own endpoint to the endpoint that serves client `victim`
     Stranger { victim: usize, what: String },
+    /// replaces a served file on disk when its turn comes
+    Mutate { name: String, content: Vec<u8> },
 }
 
 struct Client {
@@ -38,6 +40,10 @@ struct Client {
     /// further transfers this client performs from the SAME socket, one after the other
     queue: Vec<Kind>,
     results: Vec<String>,
+    /// lossy upload: the window base for which an acknowledgement has already been 'lost'
+    lost_at: Option<usize>,
+    /// download: the tsize value of the server's OACK
+    tsize: Option<usize>,
 }
 
 fn opts(b: usize, w: usize) -> Vec<TransferOption> {
@@ -64,7 +70,7 @@ impl Client {
         if self.done {
             return;
         }
-        if matches!(self.kind, Kind::Stranger { .. }) {
+        if matches!(self.kind, Kind::Stranger { .. } | Kind::Mutate { .. }) {
             // driven by `stranger_turn`; never "stalled"
             return;
         }
@@ -82,6 +88,8 @@ impl Client {
                 self.got.clear();
                 self.expected = 1;
                 self.acked = 0;
+                self.lost_at = None;
+                self.tsize = None;
                 self.src_class.clear();
                 self.idle_turns = 0;
                 // whatever the finished transfer still has in flight is not part of the next one
@@ -130,6 +138,7 @@ impl Client {
                 if !self.started {
                     self.started = true;
                     let mut o = opts(b, w);
+                    o.push(TransferOption { option: OptionType::TransferSize, value: 0 });
                     if twice {
                         o.push(TransferOption { option: OptionType::Timeout, value: 1 });
                     }
@@ -149,8 +158,13 @@ impl Client {
                 while let Some((p, from, _)) = recv_packet(&self.sock, quiet()) {
                     self.note_src(&from, &listener);
                     match p {
-                        Ok(Packet::Oack(_)) => {
+                        Ok(Packet::Oack(os)) => {
                             self.peer = Some(from);
+                            for o in &os {
+                                if o.option == OptionType::TransferSize {
+                                    self.tsize = Some(o.value);
+                                }
+                            }
                         }
                         Ok(Packet::Data { block_num, data }) => {
                             self.peer = Some(from);
@@ -164,7 +178,13 @@ impl Client {
                                 self.got.extend_from_slice(&data);
                                 if short {
                                     self.send(&Packet::Ack(block_num), from);
-                                    self.result = format!("ok:{}:{}:{}", self.got.len(), fnv(&self.got), self.src_class);
+                                    self.result = format!(
+                                        "ok:{}:{}:{}:t{}",
+                                        self.got.len(),
+                                        fnv(&self.got),
+                                        self.src_class,
+                                        self.tsize.map(|v| v.to_string()).unwrap_or_else(|| "-".into())
+                                    );
                                     self.done = true;
                                     return;
                                 }
@@ -179,8 +199,9 @@ impl Client {
                     }
                 }
             }
-            Kind::Up { name, b, w, content } => {
-                let (b, w) = (*b, *w);
+            Kind::Mutate { .. } => {}
+            Kind::Up { name, b, w, content, lossy } => {
+                let (b, w, lossy) = (*b, *w, *lossy);
                 let nblocks = content.len() / b + 1;
                 if !self.started {
                     self.started = true;
@@ -204,6 +225,13 @@ impl Client {
                             self.peer = Some(from);
                         }
                         Ok(Packet::Ack(n)) => {
+                            // (never the acknowledgement of the final window: its loss is the one failure RFC 1350 permits)
+                            if lossy && self.peer.is_some() && self.lost_at != Some(self.acked) && n != 0 && self.acked + w < nblocks {
+                                // this acknowledgement (and its copies) never arrived: the window will be sent again
+                                self.lost_at = Some(self.acked);
+                                while recv_packet(&self.sock, quiet()).is_some() {}
+                                return;
+                            }
                             // cumulative: the number of the highest block received in sequence
                             let base = self.acked;
                             for k in base..std::cmp::min(base + w, nblocks) {
@@ -267,6 +295,21 @@ fn stranger_turn(clients: &mut [Client], i: usize) {
     }
 }
 
+/// the turn of a `m:` entry: the named file of the served directory is replaced behind the server's back
+fn mutate_turn(clients: &mut [Client], i: usize, root: &std::path::Path, fl: &Flags) {
+    let (name, content) = match &clients[i].kind {
+        Kind::Mutate { name, content } => (name.clone(), content.clone()),
+        _ => return,
+    };
+    if clients[i].done {
+        return;
+    }
+    let (sd, _rd) = served_dirs(root, fl);
+    let _ = std::fs::write(sd.join(&name), &content);
+    clients[i].result = "m".into();
+    clients[i].done = true;
+}
+
 pub fn multi_line(toks: &[&str]) -> String {
     if toks.len() < 6 {
         return "bad-op".into();
@@ -289,7 +332,17 @@ pub fn multi_line(toks: &[&str]) -> String {
             ["D", name, b, w] => Kind::Down { name: name.to_string(), b: b.parse().unwrap_or(512), w: w.parse().unwrap_or(1), twice: true },
             ["u", name, b, w, rest @ ..] => {
                 let c = parse_content(&rest.join(":"))?;
-                Kind::Up { name: name.to_string(), b: b.parse().unwrap_or(512), w: w.parse().unwrap_or(1), content: c }
+                Kind::Up { name: name.to_string(), b: b.parse().unwrap_or(512), w: w.parse().unwrap_or(1), content: c, lossy: false }
+            }
+            // `U`: an upload whose client "loses" the first acknowledgement of every window and sends the window again
+            ["U", name, b, w, rest @ ..] => {
+                let c = parse_content(&rest.join(":"))?;
+                Kind::Up { name: name.to_string(), b: b.parse().unwrap_or(512), w: w.parse().unwrap_or(1), content: c, lossy: true }
+            }
+            // `m`: not a client - on its turn the file <name> of the served directory is replaced behind the server's back
+            ["m", name, rest @ ..] => {
+                let c = parse_content(&rest.join(":"))?;
+                Kind::Mutate { name: name.to_string(), content: c }
             }
             ["i", what] => Kind::Intruder { what: what.to_string() },
             ["x", victim, what] => Kind::Stranger { victim: victim.parse().unwrap_or(0), what: what.to_string() },
@@ -321,12 +374,15 @@ pub fn multi_line(toks: &[&str]) -> String {
             idle_turns: 0,
             queue,
             results: vec![],
+            lost_at: None,
+            tsize: None,
         });
     }
     for ch in toks[4].chars() {
         if let Some(i) = ch.to_digit(36) {
             if (i as usize) < clients.len() {
                 stranger_turn(&mut clients, i as usize);
+                mutate_turn(&mut clients, i as usize, &root, &fl);
                 clients[i as usize].turn(listener);
             }
         }
@@ -338,6 +394,7 @@ pub fn multi_line(toks: &[&str]) -> String {
         }
         for i in 0..clients.len() {
             stranger_turn(&mut clients, i);
+            mutate_turn(&mut clients, i, &root, &fl);
             clients[i].turn(listener);
         }
     }
